@@ -215,11 +215,42 @@ def polytope_stream(ctx, n):
             ctx.disagree(f"C07:vertices:{x.kind}", desc, [np.asarray((T * v).array).tolist() for v in vs], [np.asarray(w.array).tolist() for w in ws], replay=[desc])
 
 
+def big_collection_stream(ctx, n):
+    """collections of >= 64 transformations (the batched branch of utils.math.inv) with integer / float matrices:
+    t * join(p, q) == join(t * p, t * q) and incidence at every position"""
+    import geometer as g
+    rng = ctx.rng
+    for k in range(n):
+        size = rng.choice([64, 65, 70])
+        dtype = rng.choice([int, float])
+        mats = []
+        while len(mats) < size:
+            m = np.array([[rng.randint(-3, 3) for _ in range(3)] for _ in range(3)])
+            if abs(round(np.linalg.det(m))) >= 2:
+                mats.append(m)
+        T = g.TransformationCollection(np.array(mats, dtype=dtype))
+        p, q = g.Point(float(rng.randint(-4, 4)), float(rng.randint(-4, 4))), g.Point(float(rng.randint(-4, 4)), float(rng.randint(5, 9)))
+        desc = f"{size} transformations ({dtype.__name__}) on the line through {p} {q}; first matrix {mats[0].tolist()}"
+        ctx.case(desc)
+        ctx.count(f"big-collection:{dtype.__name__}")
+        r = call_impl(lambda: (T * g.join(p, q), g.join(T * p, T * q)))
+        if r[0] != "ok":
+            ctx.disagree(f"C07:big-collection:error:{r[1]}", desc, "lines", r[1:3], replay=[desc])
+            continue
+        a, b = np.asarray(r[1][0].array, dtype=float), np.asarray(r[1][1].array, dtype=float)
+        bad = [i for i in range(size) if not proj_close_nn(a[i], b[i], 1e-8)]
+        if bad:
+            ctx.disagree(f"C07:big-collection:commute:{dtype.__name__}", desc, np.round(b[bad[0]], 6).tolist(), np.round(a[bad[0]], 6).tolist(), replay=[desc])
+
+
 def correspondence(ctx):
     commute_stream(ctx, ctx.budget(30, 500))
     incidence_stream(ctx, ctx.budget(300, 5000))
     crossratio_stream(ctx, ctx.budget(150, 2500))
     polytope_stream(ctx, ctx.budget(100, 1500))
+    import colllib
+    colllib.run(ctx, ctx.budget(200, 2500), prefix="C07", only={"t*point", "t*line", "t*plane", "t*line3", "t*conic"})
+    big_collection_stream(ctx, ctx.budget(6, 60))
 
 
 def replay(ctx, rec):
